@@ -82,10 +82,15 @@ def run(pid, tier):
     batch = []
     traces = []
     solved = 0
+    failed = {}
     for r in sols:
         i = r["inst"]
         if not r.get("ok"):
             out.extra["infeasible_or_failed"] = out.extra.get("infeasible_or_failed", 0) + 1
+            # the Optimizer gave up: legal only if the instance really is infeasible, which the specification decides (target 0)
+            failed[i["id"]] = r.get("exc")
+            batch.append(dict(id=i["id"], n=i["n"], g=2 if i["waste"] == 50 else 1, sf=i["sf"], crops=i["crops"], meat=i["meat"], scp=i["scp"],
+                              feed=i["feed"], store=i["store"], mode="feasible", target=0))
             continue
         solved += 1
         units = r["z"] * i["need"] / 100.0
@@ -121,6 +126,12 @@ def run(pid, tier):
             key = (b["id"], b["mode"])
             inst = by_id[b["id"]]
             fam = "waste%d:%s:%s" % (inst["waste"], "storage" if inst["store"] else "first-year-only", "feed" if any(inst["feed"]) else "nofeed")
+            if b["mode"] == "feasible":
+                if key in got:
+                    out.violation("OptimizerFailsOnFeasibleInstance:%s" % fam,
+                                  "instance %d: the Optimizer failed (%s) although this allocation is feasible" % (b["id"], failed.get(b["id"])),
+                                  dict(instance=inst, exception=failed.get(b["id"]), allocation=got[key]["alloc"]))
+                continue
             if b["mode"] == "achieve" and key not in got:
                 out.violation("ReportedOptimumNotAchievable:%s" % fam,
                               "instance %d: no physically feasible allocation reaches the reported optimum %.4f %% (= %d units)" % (b["id"], zs[b["id"]], b["target"]),
@@ -129,7 +140,8 @@ def run(pid, tier):
                 out.violation("BetterAllocationExists:%s" % fam,
                               "instance %d: the Optimizer reported %.4f %% but this feasible allocation feeds %d units every month" % (b["id"], zs[b["id"]], b["target"]),
                               dict(instance=inst, reported_percent=zs[b["id"]], better_target=b["target"], allocation=got[key]["alloc"]))
-        out.sample(dict(instance=by_id[batch[0]["id"]], reported_percent=zs[batch[0]["id"]], witness=got.get((batch[0]["id"], "achieve"), {}).get("alloc")))
+        first = [b for b in batch if b["mode"] == "achieve"][0]
+        out.sample(dict(instance=by_id[first["id"]], reported_percent=zs[first["id"]], witness=got.get((first["id"], "achieve"), {}).get("alloc")))
     # achievability by the code's own allocation, small instances and corpus
     ncorpus = 0
     for run_ in corpus.runs(tier):
